@@ -34,7 +34,8 @@ ASSUMPTIONS = [
     "granularity: a real logical thread is pre-empted only at lock operations, socket calls, select and pull_trigger (the scheduler harness); the model is finer (one shared access per instruction), the proofs cover the finer interleavings",
     "the kernel: select() refuses a closed descriptor with EBADF when it is called, poll() reports POLLNVAL; descriptor numbers are not reused while a stale reference exists; socket.close() and logging do not fail",
     "exceptional conditions / POLLHUP are reported for connection sockets only (a client cannot put the listening socket in error)",
-    "at most one worker is inside service() of one channel (C04/C14); parser and application are part of the environment (all outcomes)",
+    "one worker per channel: with several pool workers the tail of service() after add_task (release of requests_lock, pull_trigger, last_activity) can overlap the next service() of the same channel; these steps touch nothing C13 speaks about and commute to the left, the model runs them first (conformance runs use one pool worker, monitor runs also two)",
+    "parser and application are part of the environment (all outcomes)",
     "the shape audit keys on the statements listed in harness/chanfault.WATCH_*; code between two scheduling points touches only what the audit lists",
 ]
 
@@ -140,7 +141,7 @@ def run(ctx):
     # ---- (b)+(c) scenarios x fault placements x schedules ----------------------------
     names = list(H.SCENARIOS)
     for name in names:
-        base = {"scenario": name, "n_workers": 2 if name.startswith("two-conns") else 1}
+        base = {"scenario": name, "n_workers": 1}
         calls, w0 = H.count_calls(base)
         ref = None
         two = name.startswith("two-conns")
@@ -161,6 +162,12 @@ def run(ctx):
             case = H.apply_placements(base, [pl])
             note_fault([pl])
             one_run(case, "default", reference=ref, pls=[pl])
+            if two:
+                # two pool workers: the tail of service() overlaps the next service() of the same channel, which
+                # the model serialises (see ASSUMPTIONS): monitor only
+                seed = rng.randrange(1 << 30)
+                one_run(dict(case, n_workers=2), "random-2workers", policy=RandomPolicy(random.Random(seed), stay=0.5),
+                        reference=ref, conform=False, pls=[pl])
             nsch = (6 if thorough else 1)
             for j in range(nsch):
                 seed = rng.randrange(1 << 30)
@@ -200,6 +207,18 @@ def run(ctx):
         r = explore(run_case, maxp, limit=limit)
         exh["runs"] += r["runs"]
         exh["truncated"] = exh["truncated"] or r["truncated"]
+
+    # the loop-death consequence of F18: the stored schedule first, a seeded random search if it no longer shows it
+    died = [False]
+    if wc_close:
+        w, problems = one_run(H.F18_LOOP_DEATH_CASE, "stored", schedule=H.F18_LOOP_DEATH_SCHEDULE, pls=[("f18",)])
+        died[0] = any(p[0] == "loop_died" for p in problems)
+        tries = 0
+        while not died[0] and tries < (3000 if thorough else 400):
+            tries += 1
+            w, problems = one_run(H.F18_LOOP_DEATH_CASE, "random", policy=RandomPolicy(random.Random(rng.randrange(1 << 30)), stay=0.6),
+                                  conform=False, pls=[("f18",)])
+            died[0] = any(p[0] == "loop_died" for p in problems)
 
     # ---- the listener world -----------------------------------------------------------
     lst_ok = [True]
@@ -311,7 +330,7 @@ def run(ctx):
     ctx.oblige("C13 monitor on the real traces: listener and trigger stay polled outside F17 (listener world)", lst_ok[0])
     if wc_close:
         ctx.oblige("F18 is reproduced on the real code (worker-side teardown; loop death through select EBADF)",
-                   stats["in_f18_class"] > 0, "runs in class: %d" % stats["in_f18_class"])
+                   stats["in_f18_class"] > 0 and died[0], "runs in class: %d, loop death shown: %s" % (stats["in_f18_class"], died[0]))
     ctx.oblige("F17 is reproduced on the real code (listener closed by an OSError in HTTPChannel.__init__)",
                stats["in_f17_class"] > 0 or not _f17_open(), "runs in class: %d" % stats["in_f17_class"])
 
@@ -319,7 +338,7 @@ def run(ctx):
         ctx.report("c13-proof-broken", "Props/C13.v no longer checks (%s)" % failing,
                    {"failing_input_found": False, "broken": "Props/C13.v via %s" % failing, "log_tail": (log or "")[-1500:]})
 
-    loop_died_real = sum(1 for lab, _ in f18_seen if "loop_died" in lab)
+    loop_died_real = bool(died[0])
     ctx.coverage.update({
         "evaluations": stats["runs"] + stats["listener_runs"],
         "distinct_nontrivial": len(nontrivial),
